@@ -1,7 +1,7 @@
 SPECIFICATION Spec
-CONSTANT Bug = "none"
-CONSTANT MaxDefects = 1
+CONSTANT Bug = "retry_on_error"
+CONSTANT MaxDefects = 2
 CONSTANT MaxValidations = 1
 CONSTANT MaxPending = 1
-INVARIANT NeverOk
+INVARIANT ProviderOnce
 CHECK_DEADLOCK FALSE
